@@ -3,7 +3,13 @@ T_E2 = "bounded symbolic execution of the real code (bvsym proxies on z3 bit-vec
 CLAIMED = {
     "C01": dict(technique=T_E2 + "; payload length itself a solver variable for the header", design_ref="DESIGN.md 5/C01"),
     "C02": dict(technique=T_E2 + "; arbitrary symbolic byte stream vs reference decoder over the same terms", design_ref="DESIGN.md 5/C02"),
+    "C03": dict(technique=T_E2 + "; inductive recv_strict step from an arbitrary buffer state; every partition/timeout placement as solver choices", design_ref="DESIGN.md 5/C03"),
+    "C04": dict(technique=T_E2 + "; inductive reassembler step from an arbitrary valid state", design_ref="DESIGN.md 5/C04"),
+    "C05": dict(technique=T_E2 + "; first header byte and 16-bit close code as solver variables vs an independent RFC predicate", design_ref="DESIGN.md 5/C05"),
     "C06": dict(technique=T_E2 + "; solver-checked simulation relation between the validator's DFA step and a reference DFA (all 256 bytes per state pair), plus bounded all-strings check", design_ref="DESIGN.md 5/C06"),
+    "C07": dict(technique=T_E2 + "; reference decoding of the bytes written, transport event-log order", design_ref="DESIGN.md 5/C07"),
+    "C08": dict(technique=T_E2 + "; call/event histories as solver choices, close status a solver integer, virtual time as solver reals", design_ref="DESIGN.md 5/C08"),
+    "C12": dict(technique=T_E2 + " for short writes; z3 integer-order query over lock/write event traces extracted from the real code for ALL thread interleavings, replayed with real threads", design_ref="DESIGN.md 5/C12"),
 }
 _PENDING = "check not built yet in this revision (planned: see DESIGN.md section 5)"
 NOT_APPLICABLE = {("C%02d" % i): _PENDING for i in range(1, 21) if ("C%02d" % i) not in CLAIMED}
